@@ -68,3 +68,37 @@ class Part:
 
 TIER = os.environ.get("VERIF_TIER", "quick")
 K.load()
+
+
+class Native:
+    """`with Native():` run an all-concrete section at native speed: CrossHair tracing is suspended (NoTracing) AND, on
+    Python >= 3.12, the per-instruction sys.monitoring events CrossHair registers are switched off for the duration
+    (NoTracing alone leaves a callback on every bytecode instruction: measured 6x slowdown)."""
+
+    def __enter__(self):
+        import sys
+        self._nt = None
+        self._mon = False
+        try:
+            from crosshair.tracers import NoTracing, is_tracing
+            if is_tracing():
+                self._nt = NoTracing()
+                self._nt.__enter__()
+                if sys.version_info >= (3, 12):
+                    from crosshair.tracers import SYS_MONITORING_TOOL_ID
+                    if sys.monitoring.get_tool(SYS_MONITORING_TOOL_ID) is not None:
+                        sys.monitoring.set_events(SYS_MONITORING_TOOL_ID, 0)
+                        self._mon = True
+        except ImportError:
+            pass
+        return self
+
+    def __exit__(self, *a):
+        import sys
+        if self._mon:
+            from crosshair.tracers import SYS_MONITORING_TOOL_ID
+            sys.monitoring.set_events(SYS_MONITORING_TOOL_ID, sys.monitoring.events.INSTRUCTION)
+            sys.monitoring.restart_events()
+        if self._nt is not None:
+            return self._nt.__exit__(*a)
+        return False
